@@ -245,7 +245,9 @@ func candidates(r *core.Run, ctx *sql.Context, rnd interface{ Intn(int) int }, s
 		}
 	case "double":
 		cs = []cand{num("0", "zero"), num("1", "one"), num("0.5", "fraction"), num("-1.5", "negative"), num("1e10", "large"), num("1e300", "huge"),
-			str("x", "str-invalid"), str("0.25", "numeric-string"), raw("NULL", "null")}
+			str("x", "str-invalid"), str("0.25", "numeric-string"), raw("NULL", "null"),
+			// spellings strconv.ParseFloat turns into values that are no numbers: never a valid value of a numeric variable
+			str("nan", "str-not-a-number"), str("NaN", "str-not-a-number"), str("inf", "str-not-a-number"), str("-Inf", "str-not-a-number"), str("+infinity", "str-not-a-number")}
 	case "enum":
 		ms := enumMembers(ctx, t)
 		for i, m := range ms {
@@ -590,6 +592,14 @@ func partA(r *core.Run, e *core.Eng) {
 				otherBefore := beforeG
 				if scope == "GLOBAL" {
 					mine, other, otherBefore = afterG, afterS, beforeS
+				}
+				if kind == "double" {
+					// whatever the type's own Convert says: a numeric variable holds a finite number
+					r.Eval(1)
+					if _, isNumber := core.Rat(strings.TrimPrefix(mine, "f")); !isNumber {
+						r.Violation("double-variable-holds-a-non-number:"+c.class, wit)
+						continue
+					}
 				}
 				if accept && judgeAccept {
 					r.Eval(1)
